@@ -15,29 +15,50 @@ open Bolt Bolt.Compact
 theorem compact_preserves (limit : Nat) (seq : Nat) (ents : Ents)
     (hwf : SWF (.bkt seq ents)) (hroot : RootOnlyBuckets (.bkt seq ents)) (hk : KeysOK (.bkt seq ents)) :
     (compact limit (.bkt seq ents)).err = none ∧ (compact limit (.bkt seq ents)).dst = .bkt 0 ents := by
-  sorry
+  have ⟨h1, h2⟩ := (swf_bkt _ _).mp hwf
+  have h0 : SWF (.bkt 0 []) := (swf_bkt _ _).mpr ⟨List.Pairwise.nil, by simp⟩
+  have hk' : EntsKeysOK ents := by rw [KeysOK] at hk; exact hk
+  have := walkEnts_spec limit ents [] { dst := .bkt 0 [], size := 0, commits := 0, err := none } 0 []
+    rfl h0 (by simp) (by simpa using h1) h2 hk' (fun _ => hroot)
+  simpa [compact] using this
 
 /-- the content of the destination does not depend on the limit (only the number of
     destination transactions does) -/
 theorem compact_limit_irrelevant (l1 l2 : Nat) (src : SVal)
     (hwf : SWF src) (hroot : RootOnlyBuckets src) (hk : KeysOK src) :
     (compact l1 src).dst = (compact l2 src).dst := by
-  sorry
+  cases src with
+  | val v => exact absurd hroot (by simp [RootOnlyBuckets])
+  | bkt seq ents =>
+    rw [(compact_preserves l1 seq ents hwf hroot hk).2, (compact_preserves l2 seq ents hwf hroot hk).2]
 
 /-- with limit 0 everything is copied in one destination transaction -/
 theorem compact_unlimited_single_tx (src : SVal) : (compact 0 src).commits = 0 := by
-  sorry
+  cases src with
+  | val v => rfl
+  | bkt seq ents => simp [compact, walkEnts_commits_unlimited]
 
 /-- the destination is well-formed -/
 theorem compact_dst_wf (limit : Nat) (src : SVal)
     (hwf : SWF src) (hroot : RootOnlyBuckets src) (hk : KeysOK src) : SWF (compact limit src).dst := by
-  sorry
+  cases src with
+  | val v => exact absurd hroot (by simp [RootOnlyBuckets])
+  | bkt seq ents =>
+    rw [(compact_preserves limit seq ents hwf hroot hk).2]
+    exact (swf_bkt _ _).mpr ((swf_bkt _ _).mp hwf)
 
 /-- non-vacuity: nested buckets, an empty bucket, an empty value, sequences; limit 1 splits
     inside the nested bucket -/
 example :
     let src : SVal := .bkt 0 [([1], .bkt 7 [([2], .val []), ([3], .bkt 5 [([1], .val [1, 2, 3])])]), ([4], .bkt 0 [])]
     (compact 1 src).dst = src ∧ (compact 1 src).err = none ∧ (compact 1 src).commits = 4 := by
-  sorry
+  intro src
+  have hwf : SWF src := by simp [src, SWF, EntsWF, EntsSorted, Bytes.lt]
+  have hroot : RootOnlyBuckets src := by simp [src, RootOnlyBuckets, SVal.isBucket]
+  have hk : KeysOK src := by simp [src, KeysOK, EntsKeysOK, SVal.isBucket, maxKeySize, maxValueSize]
+  have := compact_preserves 1 0 _ hwf hroot hk
+  refine ⟨this.2, this.1, ?_⟩
+  simp [src, compact, walkEnts, walkBucket, visit, apiPut, apiCreateBucket, apiSetSequence, bucketAt,
+    setBucketAt, entsLookup, entsInsert, maxKeySize, maxValueSize, Bytes.lt]
 
 end Bolt.C15
